@@ -21,6 +21,7 @@ var stubDocs = map[string]string{
 	"bytes.Equal":             "cell-wise equality term",
 	"(*sync.Mutex).Lock":      "sequential mode: held flag in the mutex state word (double Lock = reported deadlock)",
 	"(*sync.Mutex).Unlock":    "sequential mode: clears the held flag",
+	"sync/atomic.*":           "Add/Load/Store/Swap/CompareAndSwap on 32/64-bit integers: one indivisible read-modify-write; in thread mode a critical section of a per-cell pseudo-mutex, so atomic accesses exclude each other and race with plain ones",
 	"time.Unix":               "time.Time modelled as its Unix-nanosecond int64 (sec*1e9+nsec, wrapping)",
 	"(time.Time).UnixNano":    "returns the modelled int64",
 	"randutil (package init)": "globalMathRandomGenerator is left nil by init; harnesses install a nondet fake",
@@ -307,6 +308,17 @@ func (p *Program) computeStub(fn *ssa.Function) stubFn {
 			}
 			return sv.Leaves[1]
 		}
+	case "sync/atomic.AddUint32", "sync/atomic.AddUint64", "sync/atomic.AddInt32", "sync/atomic.AddInt64", "sync/atomic.AddUintptr":
+		return stubAtomic("add")
+	case "sync/atomic.LoadUint32", "sync/atomic.LoadUint64", "sync/atomic.LoadInt32", "sync/atomic.LoadInt64", "sync/atomic.LoadUintptr":
+		return stubAtomic("load")
+	case "sync/atomic.StoreUint32", "sync/atomic.StoreUint64", "sync/atomic.StoreInt32", "sync/atomic.StoreInt64", "sync/atomic.StoreUintptr":
+		return stubAtomic("store")
+	case "sync/atomic.SwapUint32", "sync/atomic.SwapUint64", "sync/atomic.SwapInt32", "sync/atomic.SwapInt64", "sync/atomic.SwapUintptr":
+		return stubAtomic("swap")
+	case "sync/atomic.CompareAndSwapUint32", "sync/atomic.CompareAndSwapUint64", "sync/atomic.CompareAndSwapInt32",
+		"sync/atomic.CompareAndSwapInt64", "sync/atomic.CompareAndSwapUintptr":
+		return stubAtomic("cas")
 	case "github.com/pion/randutil.NewMathRandomGenerator":
 		return func(ex *Exec, fn *ssa.Function, args []Value) Value { return &IfaceVal{} }
 	}
@@ -420,4 +432,58 @@ func stubMutexUnlock(ex *Exec, fn *ssa.Function, args []Value) Value {
 	ex.check(ex.tt.Eq(st, ex.tt.Const(st.W, 1)), "Unlock of an unlocked mutex")
 	ex.cellWrite(p.Obj, p.Off, ex.tt.Const(st.W, 0))
 	return nil
+}
+
+// stubAtomic models the sync/atomic integer functions. Sequentially they are a
+// plain read-modify-write. In thread mode the operation is bracketed by
+// Lock/Unlock events of a pseudo-mutex that belongs to the addressed cell:
+// the schedule encoding then keeps two atomic operations on one cell apart,
+// and the lockset check reports a data race when the same cell is also
+// accessed without sync/atomic.
+func stubAtomic(op string) stubFn {
+	return func(ex *Exec, fn *ssa.Function, args []Value) Value {
+		p, ok := args[0].(*PtrVal)
+		if !ok || p.Obj == nil {
+			ex.check(ex.tt.False, "nil pointer passed to sync/atomic")
+		}
+		done := func() {}
+		if tc := ex.threads; tc != nil && tc.cur >= 0 && ex.sharedAccess(p.Obj) {
+			if !p.Off.IsConst() {
+				ex.unsupported("atomic access at a symbolic address in thread mode")
+			}
+			key := cellKey{p.Obj, -1 - int(p.Off.Val)}
+			tc.newEvent(ex, evLock, key, nil)
+			tc.held[key] = true
+			done = func() {
+				delete(tc.held, key)
+				tc.newEvent(ex, evUnlock, key, nil)
+			}
+		}
+		var res Value
+		switch op {
+		case "load":
+			res = ex.cellRead(p.Obj, p.Off)
+		case "store":
+			ex.cellWrite(p.Obj, p.Off, args[1])
+		case "add":
+			old := ex.term(ex.cellRead(p.Obj, p.Off), "atomic operand")
+			nv := ex.tt.BvAdd(old, ex.term(args[1], "atomic delta"))
+			ex.cellWrite(p.Obj, p.Off, nv)
+			res = nv
+		case "swap":
+			res = ex.cellRead(p.Obj, p.Off)
+			ex.cellWrite(p.Obj, p.Off, args[1])
+		case "cas":
+			old := ex.term(ex.cellRead(p.Obj, p.Off), "atomic operand")
+			eq := ex.tt.Eq(old, ex.term(args[1], "atomic old"))
+			if ex.branch(eq) {
+				ex.cellWrite(p.Obj, p.Off, args[2])
+				res = ex.tt.True
+			} else {
+				res = ex.tt.False
+			}
+		}
+		done()
+		return res
+	}
 }
